@@ -61,6 +61,11 @@ func (s *Streamer) binlogPosition() Position {
 //Stream 注册一个处理事务信息函数到Stream中
 func (s *Streamer) Stream(ctx context.Context, sendTransaction SendTransactionFunc) error {
 	s.ctx = ctx
+	// The reader goroutine must not outlive this call: when the parser stops on an
+	// error the caller's ctx is not cancelled, and a reader parked on the event
+	// hand-off would stay there forever (and Error() would never get its report).
+	ctx, cancel := context.WithCancel(ctx)
+	defer cancel()
 	conn, err := newSlaveConnection(func() (conn dumpConn, e error) {
 		return mysql.NewDumpConn(s.dsn, ctx)
 	})
